@@ -287,4 +287,5 @@ def obligations(tier, seed):
     anchors.append((r.choice([-1, 1]) * r.randint(10000, 30000), 30))
     for a, w in anchors:
         obs.append(mk_window(a, w, f"c08_day_count_{a}".replace("-", "m"), tier="thorough"))
+    obs += contract_obligations(tier)   # the Duration-arithmetic contracts the inductive obligation relies on, decided in the same run
     return obs
